@@ -28,6 +28,11 @@ M = [
  ("benign-lose-rights-andnot", "src/board/move_info.rs", "let new_rights = old_rights ^ (old_rights & lost_rights);", "let new_rights = old_rights & !lost_rights;", "ok", ["C05"]),
  ("benign-is-occupied-overlaps", "src/board/mod.rs", "        !(self.occupied() & square).is_empty()", "        self.occupied().overlaps(square)", "ok", ["C05"]),
  ("benign-put-uses-xor", "src/board/piece_set.rs", "        self.bitboards[piece as usize] |= square;\n        self.occupied |= square;", "        self.bitboards[piece as usize] ^= square;\n        self.occupied ^= square;", "ok", ["C05"]),
+ # ---- renamed locals / parameters (behaviour-preserving; R18 restores the recorded names)
+ ("benign-rename-local-pawns", "src/move_generator/targets.rs", "re:\\bpawns\\b", "own_pawns", "ok", ["C01"]),
+ ("benign-rename-loop-var", "src/move_generator/targets.rs", "        for x in 0..64 {\n            let square = Bitboard(1 << x);", "        for idx in 0..64 {\n            let square = Bitboard(1 << idx);", "ok", ["C06"]),
+ ("benign-rename-local-in-apply", "src/chess_move/standard.rs", "re:\\bcaptured_piece_and_color\\b", "taken", "ok", ["C03"]),
+ ("benign-rename-param", "src/board/piece_set.rs", "re:\\bsquare\\b", "sq_word", "ok", ["C05"]),
  # ---- apply / undo (C03 C04 C12 C16)
  ("castle-undo-forgets-halfmove-pop", "src/chess_move/castle.rs", "        board.pop_halfmove_clock();\n        board.pop_en_passant_target();\n        board.pop_castle_rights();\n\n        Ok(())\n    }\n}\n\nimpl fmt::Display for CastleChessMove", "        board.pop_en_passant_target();\n        board.pop_castle_rights();\n\n        Ok(())\n    }\n}\n\nimpl fmt::Display for CastleChessMove", "violation", ["C04"]),
  ("ep-victim-wrong-direction", "src/chess_move/en_passant.rs", "            Color::White => *to_square >> 8,\n            Color::Black => *to_square << 8,\n        };\n\n        if board.remove", "            Color::White => *to_square << 8,\n            Color::Black => *to_square >> 8,\n        };\n\n        if board.remove", "violation", ["C03"]),
@@ -72,9 +77,16 @@ def run_one(m):
                         '--exclude', 'target/release', REPO + '/', dst + '/'], check=True)
         p = os.path.join(dst, rel)
         s = open(p).read()
-        if s.count(old) != 1:
-            return {'name': name, 'error': 'pattern matches %d times' % s.count(old)}
-        open(p, 'w').write(s.replace(old, new))
+        if old.startswith('re:'):
+            import re
+            s2, n = re.subn(old[3:], new, s)
+            if n == 0:
+                return {'name': name, 'error': 'regex matches 0 times'}
+            open(p, 'w').write(s2)
+        else:
+            if s.count(old) != 1:
+                return {'name': name, 'error': 'pattern matches %d times' % s.count(old)}
+            open(p, 'w').write(s.replace(old, new))
         res = {}
         for pid in props:
             env = dict(os.environ, VX_REPO=dst, VX_SHARDS='6')
